@@ -64,6 +64,18 @@ func setLit(ev *Evaluator, lit string) {
 	m.Value.Raw = lit
 }
 
+// createWithLit: a concrete literal goes through the real parser and
+// CreateEvaluator (so creation-time processing sees it); a symbolic one is
+// patched into the tree of a placeholder expression.
+func createWithLit(op int, sel, lit string, concrete bool) *Evaluator {
+	if concrete {
+		return mustCreate(exprFor(op, sel, `"`+lit+`"`))
+	}
+	ev := mustCreate(exprFor(op, sel, "x"))
+	setLit(ev, lit)
+	return ev
+}
+
 var opText = [8]string{"==", "!=", "in", "not in", "is empty", "is not empty", "matches", "not matches"}
 
 // exprFor renders `sel <op> lit` in the operator's own syntax.
